@@ -120,6 +120,7 @@ type HistFamily struct {
 	MaxDepth  int // 0 = unbounded (space is finite because N never decreases)
 	NoDedup   bool
 	PermLimit int // all permutations of request order for |S| <= PermLimit
+	Collect   string // when set, violations of this property are collected instead of Or.Prop's (C17 rides on every family)
 }
 
 type frame struct {
@@ -384,7 +385,11 @@ func roundTrip(x *Exec, prop string, in *inst) error {
 
 func (f *HistFamily) Step(n *Node, op Op) StepResult {
 	hist := append(append([]Op(nil), n.Hist...), op)
-	x := NewExec(f.Or.Prop, func() Case { return mkCase("hist", histPayload{Fam: *f, Hist: hist}) })
+	xp := f.Or.Prop
+	if f.Collect != "" {
+		xp = f.Collect
+	}
+	x := NewExec(xp, func() Case { return mkCase("hist", histPayload{Fam: *f, Hist: hist}) })
 	insts, md, ok := f.run(x, hist)
 	res := StepResult{}
 	if ok {
@@ -452,6 +457,7 @@ func (f *HistFamily) observe(x *Exec, insts []*inst, md *histModel, report bool)
 				n, roots = in.stump.NumLeaves, in.stump.Roots
 			} else {
 				n, roots = in.acc.GetNumLeaves(), in.acc.GetRoots()
+				x.HoldH(in.cfg.Name()+".GetRoots result", roots)
 			}
 			if n != md.s.Total() {
 				x.Report(prop, "leaf count differs from reference on "+in.cfg.Class(), fmt.Sprintf("%s: want %d got %d", in.cfg.Name(), md.s.Total(), n))
